@@ -409,6 +409,7 @@ theorem i4b_step_env (f : Sem) (j : Job) (cl : Cluster) (s s' : Sys) (es : EnvSt
     (hs : step f j cl s (.env es) = some s') : Inv4 j cl s' := by
   simp only [step] at hs
   split at hs; · cases hs
+  rw [envStepP_eq f j s.env es h1.no_trim] at hs
   cases he : envStep f j s.env es with
   | none => simp [he] at hs
   | some e' =>
